@@ -19,6 +19,7 @@ import XotModel.Driver.Parse
 import XotModel.Driver.Fclone
 import XotModel.Driver.Repair
 import XotModel.Driver.SerTokens
+import XotModel.Driver.Fprefix
 
 open XotModel.Driver
 
@@ -49,9 +50,12 @@ def dispatchAll (st : MState) (line : String) : MState × String :=
   | "forest" :: "specx" :: rest => (st, (handleFspec st.forest ("specx" :: rest)).getD "bad-request")
   | "forest" :: "fixed" :: rest => (match handleFfixed st.forest rest with | some (fs, resp) => ({ st with forest := fs }, resp) | none => (st, "bad-request"))
   | "forest" :: rest =>
-    (match (handleFclone st.d.env st.forest rest).orElse (fun _ => handleForest st.forest rest) with
-     | some (fs, resp) => ({ st with forest := fs }, resp)
-     | none => (st, "bad-request"))
+    (match handleFprefix st.d.env st.forest rest with
+     | some (fs, env, resp) => ({ st with forest := fs, d := { st.d with env := env } }, resp)
+     | none =>
+       (match (handleFclone st.d.env st.forest rest).orElse (fun _ => handleForest st.forest rest) with
+        | some (fs, resp) => ({ st with forest := fs }, resp)
+        | none => (st, "bad-request")))
   | "fmap" :: rest =>
     (match handleFmap st.forest rest with
      | some (fs, resp) => ({ st with forest := fs }, resp)
